@@ -20,7 +20,9 @@
 //	(7) the writer goroutine dies inside Add (panic / runtime.Goexit / read error after k bytes of the
 //	    content; inside every step under CompileModule) while the process lives on (die.go),
 //	(8) all interleavings of two concurrent CompileModule calls (same key on two runtimes / on one
-//	    runtime; two different keys) switching at every file-cache operation (adders.go).
+//	    runtime; two different keys) switching at every file-cache operation (adders.go),
+//	(9) environment events (staging file / entry directory removed or replaced) between any two
+//	    steps of the add (events.go).
 //
 // After every state a recovery runs in a supervised child: fresh cache object + fresh runtime on
 // that directory, CompileModule, instantiate, call every export, compare with the uncached
@@ -334,6 +336,9 @@ func newTopWith(mi *modInfo, files map[string][]byte) (top, sub string) {
 func readState(sub string) map[string][]byte {
 	out := map[string][]byte{}
 	es, err := os.ReadDir(sub)
+	if os.IsNotExist(err) {
+		return out // the entry directory itself is gone (environment events): no file is visible
+	}
 	if err != nil {
 		fw.Fatalf("readdir: %v", err)
 	}
@@ -622,19 +627,22 @@ func crashPoints(log []vos.Step) []int {
 // ---------------------------------------------------------------- cases
 
 type Case struct {
-	Kind  string `json:"kind"`
-	Mod   int    `json:"mod"`
-	Flow  string `json:"flow,omitempty"`
-	K     int    `json:"k,omitempty"`
-	Torn  string `json:"torn,omitempty"` // structural reference of the torn file ("created#n" / "initial:<name>")
-	L     int    `json:"l,omitempty"`
-	Ver   string `json:"ver,omitempty"`
-	Body  string `json:"body,omitempty"`
-	Errno string `json:"errno,omitempty"`
-	Conf  string `json:"conf,omitempty"`
-	Shard []int  `json:"shard,omitempty"`
-	Rep   int    `json:"rep,omitempty"`
-	Mods  []int  `json:"mods,omitempty"` // xmod: one module per thread
+	Kind   string `json:"kind"`
+	Mod    int    `json:"mod"`
+	Flow   string `json:"flow,omitempty"`
+	K      int    `json:"k,omitempty"`
+	Torn   string `json:"torn,omitempty"` // structural reference of the torn file ("created#n" / "initial:<name>")
+	L      int    `json:"l,omitempty"`
+	Ver    string `json:"ver,omitempty"`
+	Body   string `json:"body,omitempty"`
+	Errno  string `json:"errno,omitempty"`
+	Conf   string `json:"conf,omitempty"`
+	Shard  []int  `json:"shard,omitempty"`
+	Rep    int    `json:"rep,omitempty"`
+	Mods   []int  `json:"mods,omitempty"`  // xmod: one module per thread
+	Event  string `json:"event,omitempty"` // event: environment event before step K
+	K2     int    `json:"k2,omitempty"`    // event: 1 + position of the second event (thorough)
+	Event2 string `json:"event2,omitempty"`
 }
 
 type caseResult struct {
@@ -756,11 +764,13 @@ func genCases(p *Plan) []Case {
 			log  []vos.Step
 		}{{"miss", m.MissLog}, {"stale", m.StaleLog}, {"hit", m.HitLog}} {
 			for k, st := range fl.log {
-				errnos := []string{"ENOSPC", "EIO"}
+				// every step of the flows that contain an Add: the full errno set; the loader's reads
+				// and read-handle closes (dominant in the hit flow): EIO
+				errnos := []string{"ENOENT", "EEXIST", "EIO", "ENOSPC", "EACCES", "EINTR"}
 				if st.Op == "write" {
 					errnos = append(errnos, "ENOSPC-short")
 				}
-				if st.Op == "read" || st.Op == "open" || st.Op == "rclose" {
+				if st.Op == "read" || st.Op == "rclose" {
 					errnos = []string{"EIO"}
 				}
 				for _, e := range errnos {
@@ -806,6 +816,8 @@ func genCases(p *Plan) []Case {
 	cs = append(addersCases(p), cs...)
 	// (7) the writer goroutine dies (panic / Goexit / read error) inside Add, the process lives on
 	cs = append(cs, dieCases(p)...)
+	// (9) environment events between two steps of the add
+	cs = append(cs, eventCases(p)...)
 	return cs
 }
 
@@ -835,6 +847,14 @@ func errnoOf(s string) (vosErrno, bool) {
 		return enospc, false
 	case "ENOSPC-short":
 		return enospc, true
+	case "ENOENT":
+		return syscall.ENOENT, false
+	case "EEXIST":
+		return syscall.EEXIST, false
+	case "EACCES":
+		return syscall.EACCES, false
+	case "EINTR":
+		return syscall.EINTR, false
 	}
 	return eio, false
 }
@@ -951,6 +971,8 @@ func runCase(p *Plan, c Case) caseResult {
 		return runDie(mi, c)
 	case "adders":
 		return runAdders(p, c)
+	case "event":
+		return runEvent(mi, c)
 	}
 	fw.Fatalf("unknown case kind %q", c.Kind)
 	return caseResult{}
@@ -996,7 +1018,17 @@ func runFault(mi *modInfo, c Case) caseResult {
 	top, sub := newTopWith(mi, files)
 	defer os.RemoveAll(top)
 	en, short := errnoOf(c.Errno)
-	r := compileOn(top, mi, nil, func(s *vos.Session) { s.FailAt = c.K; s.FailErr = en; s.FailShort = short })
+	var badStep map[string][]byte
+	r := compileOn(top, mi, nil, func(s *vos.Session) {
+		s.FailAt = c.K
+		s.FailErr = en
+		s.FailShort = short
+		s.Hook = func(idx int, op string) { // after every step: nothing incomplete is visible
+			if st := readState(sub); badStep == nil && len(visible("", "", mi, st, alsoOK)) > 0 {
+				badStep = st
+			}
+		}
+	})
 	op := "?"
 	hit := false
 	for _, st := range r.Ops {
@@ -1020,6 +1052,9 @@ func runFault(mi *modInfo, c Case) caseResult {
 	}
 	st := readState(sub)
 	vs = append(vs, visible(phase, class, mi, st, alsoOK)...)
+	if len(vs) == 0 && badStep != nil { // visible only in an intermediate step
+		vs = append(vs, visible(phase, class+"-intermediate", mi, badStep, alsoOK)...)
+	}
 	left := 0
 	for n := range st {
 		if n != mi.Key {
@@ -1238,7 +1273,7 @@ func main() {
 				detSums[c.Mod] = append(detSums[c.Mod], cr.Sum)
 			}
 			if c.Kind != "det" && c.Kind != "control" {
-				distinct[fmt.Sprintf("%d/%s/%s/%d/%s/%d/%s/%s/%s/%s/%v", c.Mod, c.Kind, c.Flow, c.K, c.Torn, c.L, c.Ver, c.Body, c.Errno, c.Conf, c.Shard)+fmt.Sprint(c.Mods)] = true
+				distinct[fmt.Sprintf("%d/%s/%s/%d/%s/%d/%s/%s/%s/%s/%v", c.Mod, c.Kind, c.Flow, c.K, c.Torn, c.L, c.Ver, c.Body, c.Errno, c.Conf, c.Shard)+fmt.Sprint(c.Mods, c.Event, c.K2, c.Event2)] = true
 			}
 			if len(cr.Viols) > 0 {
 				for _, v := range cr.Viols {
@@ -1348,6 +1383,8 @@ func caseClass(c Case) string {
 		return c.Conf
 	case "die":
 		return c.Flow + "-" + c.Errno
+	case "event":
+		return c.Flow + "-" + c.Event
 	case "trunc":
 		return "truncated-entry"
 	case "hole":
